@@ -339,7 +339,7 @@ class H:
 
 
 # ---------------------------------------------------------------------- builder
-def _gen_func(spec, h, fname):
+def _gen_func(spec, h, fname, shared=False):
     params = spec.get("params", [])
     defaults = spec.get("defaults", {})
     types = spec.get("types", {})
@@ -364,15 +364,21 @@ def _gen_func(spec, h, fname):
         ret = " -> __T__['return']"
     argd = "{" + ", ".join(f"{p!r}: {p}" for p in params) + "}"
     nid = spec["id"]
+    nid_expr = repr(nid)
+    if shared:
+        # nodes that are MEANT to share one function definition: identical code object (hence identical
+        # definition hash); the node identity is looked up in the function's globals at call time
+        glb["__NID__"] = nid
+        nid_expr = "__NID__"
     if spec.get("gen"):
         if spec.get("async"):
-            src = f"async def {fname}({', '.join(sig)}){ret}:\n    for __x in await __H__.acall({nid!r}, {argd}):\n        yield __x\n"
+            src = f"async def {fname}({', '.join(sig)}){ret}:\n    for __x in await __H__.acall({nid_expr}, {argd}):\n        yield __x\n"
         else:
-            src = f"def {fname}({', '.join(sig)}){ret}:\n    yield from __H__.call({nid!r}, {argd})\n"
+            src = f"def {fname}({', '.join(sig)}){ret}:\n    yield from __H__.call({nid_expr}, {argd})\n"
     elif spec.get("async"):
-        src = f"async def {fname}({', '.join(sig)}){ret}:\n    return await __H__.acall({nid!r}, {argd})\n"
+        src = f"async def {fname}({', '.join(sig)}){ret}:\n    return await __H__.acall({nid_expr}, {argd})\n"
     else:
-        src = f"def {fname}({', '.join(sig)}){ret}:\n    return __H__.call({nid!r}, {argd})\n"
+        src = f"def {fname}({', '.join(sig)}){ret}:\n    return __H__.call({nid_expr}, {argd})\n"
     code = _CODE.get(src)
     if code is None:
         code = _CODE[src] = compile(src, f"<mc:{nid}>", "exec")
@@ -413,12 +419,7 @@ def build_node(spec, h, funcs=None):
             n = n.map_over(*spec["map_over"], **kw)
     else:
         fkey = spec.get("func_key")
-        if funcs is not None and fkey is not None and fkey in funcs:
-            fn = funcs[fkey]
-        else:
-            fn = _gen_func(spec, h, spec.get("fname", nid))
-            if funcs is not None and fkey is not None:
-                funcs[fkey] = fn
+        fn = _gen_func(spec, h, spec.get("fname", nid), shared=fkey is not None)
         common = {}
         if spec.get("emit"):
             common["emit"] = tuple(spec["emit"])
